@@ -36,7 +36,10 @@ E2E_T = e2e('transfer', 'TestVerifE2ETransfer')
 E2E_PR = e2e('pr', 'TestVerifE2EPR')
 E2E_SD = e2e('shutdown', 'TestVerifE2EShutdown')
 E2E_HS = e2e('handshake', 'TestVerifE2EHandshake', nq=384, nt=3000)
-E2E_RS = e2e('reset', 'TestVerifE2EReset')
+E2E_RS = dict(e2e('reset', 'TestVerifE2EReset'), corpus_glob='d*.ops')
+# stream reset, direct drive: two real established associations, packet histories, object handles; L0 model Rs
+RSD = {'test': 'TestVerifReset', 'comp': 'rs', 'quick': {'VERIF_N': 64}, 'thorough': {'VERIF_N': 400},
+       'seeds': {'quick': 1, 'thorough': 8}, 'corpus_glob': 'rs_*.ops'}
 E2E_API = e2e('api', 'TestVerifE2EAPI')
 E2E_TD = e2e('teardown', 'TestVerifE2ETeardown', nq=400, nt=2000)
 
@@ -60,7 +63,7 @@ CODEC = {'test': 'TestVerifCodec', 'comp': 'codec', 'quick': {'VERIF_N': 1500}, 
 
 PROPS = {
     'C05': {'jobs': [RQ, ARCV]},
-    'C16': {'jobs': [GENF, RQ, ASND, ARCV]},
+    'C16': {'jobs': [GENF, RQ, ASND, ARCV, RSD]},
     'C01': {'jobs': [REASM, ASND, ARCV, E2E_T], 'assumptions': [
         'sender half (Props/C01wire.lean): payload BYTES are not in the sender model (lengths and fragment identity only); that a chunk carries the matching slice of the written buffer is observed by the e2e content hashes',
         'receive-side system theorem (C01_receiver_prefix): chunks are the fragments of the peer\'s messages (universe of Reasm.Sender per stream, fewer than 2^31 TSNs in all), reliable streams only (no FORWARD-TSN, no reset in the run)',
@@ -79,8 +82,8 @@ PROPS = {
     'C08': {'jobs': [SDD, dict(E2E_SD, corpus_glob='e2e_*.ops')], 'assumptions': [
         'theorems are about the L0 model Sd (two established endpoints + packet histories); the model is replayed line by line against two real established associations (TestVerifShutdown: real readLoop and real Shutdown call, write loop stepped explicitly, timers fired explicitly)',
         'which DATA chunks a write-loop pass sends (cwnd, rwnd, MTU bundling, burst budget, T3 / fast-retransmit / RACK marks, stream scheduler) is an input of the model, quantified over in the theorems and read off the emitted packets in the replay',
-        'one DATA chunk per message; TSNs and acknowledgement points as offsets from the initial TSN (no wrap-around: C16); receive buffer never full, streams pre-opened, ackMode normal; no ABORT / RECONFIG / FORWARD-TSN / HEARTBEAT traffic',
-        'C08_shutdown_ok_implies_delivered_partial assumes the transport under the caller did not fail: Shutdown also returns nil when the local read loop ends (witness corpus/C08/known/sd_shutdown_nil_on_local_transport_failure.ops)',
+        'one DATA chunk per message; TSNs and acknowledgement points as offsets from the initial TSN (no wrap-around: C16); receive buffer never full, streams pre-opened, ackMode normal; ABORT only as sent by Abort(); no RECONFIG / FORWARD-TSN / HEARTBEAT traffic',
+        'C08_shutdown_ok_implies_delivered is full strength since the fix of D22 (Shutdown returns ErrShutdownIncomplete unless SHUTDOWN-ACK or SHUTDOWN-COMPLETE was received); transport failure, Close and Abort at any moment are operations of the model; a peer closed by an inbound ABORT reports EOF on its streams in the harness (the ABORT error in the real read loop)',
         'liveness theorems are for the explicit schedules named in Props/C08.lean (every message count), not for arbitrary fair schedules; the e2e shutdown scenarios sample the rest under virtual time',
         'one case (sd job) = one operation sequence from `sd new` to the next; (e2e job) = ' + E2E_RULE,
     ]},
@@ -88,7 +91,14 @@ PROPS = {
         'theorems are about the L0 model Hs (two endpoints + packet histories); the model is replayed line by line against two real associations driven by a packet shuffler (TestVerifHandshake)',
         'the blocking behaviour of Client/Server calls, T1 retry budget and connect failure are covered by the e2e handshake scenarios and by C19 theorems, not by the Hs model',
         'verification tags and ports are not part of the model (the implementation does not check inbound verification tags)']},
-    'C14': {'jobs': [E2E_RS], 'rule': E2E_RULE},
+    'C14': {'jobs': [RSD, E2E_RS], 'assumptions': [
+        'theorems are about the L0 model Rs (two established endpoints + packet histories, stream objects by handle); the model is replayed line by line against two real associations (TestVerifReset)',
+        'oracles (quantified over in the theorems, recorded from the real code in the harness): which pending entries leave the queue in one gatherOutbound call (congestion / flow control, scheduler), which sent chunks are retransmitted (T3, fast retransmit, RACK), whether a SACK is due',
+        'TSN / RSN / SSN / MID are natural numbers in Rs (no wrap-around; serial arithmetic is C16), initial TSNs are not 0, messages are unfragmented, the receive buffer is never full, fewer than 1000 deferred requests; where a run leaves this domain the model prints UNSUPPORTED',
+        'Rs keeps every performed request number; the exact rememberPerformedReset (trim above 2048 entries) is modelled separately (PerfSet) and the driver flags disagreement',
+        'C14_eof_after_data judges an identifier while the applications re-open it only in states where both directions were reset (Sys.quiet, evaluated on the real state by the harness as q=)',
+        'association shutdown / abort and blocking calls are outside the model (e2e reset scenarios cover them by exploration)',
+    ]},
     'C10': {'jobs': [ASND, E2E_T], 'assumptions': [
         'L0 model Model/Sender.lean is hand-written; its window tests / updates / congestion formulas / chunk sizes are translator-generated Gen.* defs; the rest is tied by comparing every op of the direct-drive harness',
         'oracles (quantified over in the theorems, recorded from the real code in the harness): TLR burst budget, pending-queue selection, RACK/PTO loss marks, T3 expiries during a clock tick',
